@@ -400,6 +400,55 @@ func genScanDFA(c *ctx) {
 		rows = append(rows, r)
 	}
 	sort.Slice(rows, func(i, j int) bool { return rows[i].state < rows[j].state })
+	// token numbers: pkg/token/token.go declares them as one iota block starting at 57346
+	tokNum := map[string]int{}
+	var tokOrder []string
+	if tf := c.parseFile("pkg/token/token.go"); tf != nil {
+		for _, d := range tf.Decls {
+			gd, ok := d.(*ast.GenDecl)
+			if !ok || gd.Tok != token.CONST {
+				continue
+			}
+			base := -1
+			for i, sp := range gd.Specs {
+				vs := sp.(*ast.ValueSpec)
+				if i == 0 && len(vs.Values) == 1 {
+					if be, ok := vs.Values[0].(*ast.BinaryExpr); ok && nodeText(be.X) == "iota" {
+						if bl, ok := be.Y.(*ast.BasicLit); ok {
+							base, _ = strconv.Atoi(bl.Value)
+						}
+					}
+				}
+				if base < 0 {
+					break
+				}
+				for _, n := range vs.Names {
+					tokNum["token."+n.Name] = base + i
+					tokOrder = append(tokOrder, n.Name)
+				}
+			}
+		}
+	}
+	if len(tokNum) < 100 {
+		c.fail(comp, f.Pos(), "token numbers not found in pkg/token/token.go")
+		return
+	}
+	tokCode := func(expr string) int {
+		e := strings.ReplaceAll(expr, " ", "")
+		if n, ok := tokNum[e]; ok {
+			return n
+		}
+		if strings.HasPrefix(e, "token.ID(int('") && strings.HasSuffix(e, "'))") {
+			q := e[len("token.ID(int("):len(e)-2]
+			if u, err := strconv.Unquote(q); err == nil && len(u) == 1 {
+				return int(u[0])
+			}
+		}
+		if e == "token.ID(int(lex.data[lex.ts]))" {
+			return 999999 // the token's own first byte
+		}
+		return -1
+	}
 	// action blocks: new_line action? token id? where next?
 	type trInfo struct {
 		n       int
@@ -409,6 +458,10 @@ func genScanDFA(c *ctx) {
 		newline bool
 		toks    []string
 		next    string
+		act     int            // last `lex.act = N` of the block, -1 none
+		emits   bool           // contains `goto _out`
+		sw      map[int][]string // `switch lex.act`: case -> token expressions assigned in it
+		swOrder []int
 	}
 	var trs []trInfo
 	for _, sg := range segs {
@@ -419,8 +472,47 @@ func genScanDFA(c *ctx) {
 		if err != nil {
 			continue
 		}
-		ti := trInfo{n: n}
+		ti := trInfo{n: n, act: -1}
 		for _, st := range sg.stmts {
+			// `switch lex.act` blocks: tokens per case
+			ast.Inspect(st, func(x ast.Node) bool {
+				sw, ok := x.(*ast.SwitchStmt)
+				if !ok || sw.Tag == nil || nodeText(sw.Tag) != "lex.act" {
+					return true
+				}
+				ti.sw = map[int][]string{}
+				for _, cc := range sw.Body.List {
+					cl := cc.(*ast.CaseClause)
+					var ts []string
+					for _, b := range cl.Body {
+						ast.Inspect(b, func(y ast.Node) bool {
+							if as, ok := y.(*ast.AssignStmt); ok && len(as.Lhs) == 1 && nodeText(as.Lhs[0]) == "tok" && len(as.Rhs) == 1 {
+								ts = append(ts, nodeText(as.Rhs[0]))
+							}
+							return true
+						})
+					}
+					for _, cv := range cl.List {
+						if bl, ok := cv.(*ast.BasicLit); ok {
+							k, _ := strconv.Atoi(bl.Value)
+							ti.sw[k] = ts
+							ti.swOrder = append(ti.swOrder, k)
+						}
+					}
+				}
+				return false
+			})
+			if as, ok := st.(*ast.AssignStmt); ok && len(as.Lhs) == 1 && nodeText(as.Lhs[0]) == "lex.act" {
+				if bl, ok := as.Rhs[0].(*ast.BasicLit); ok {
+					ti.act, _ = strconv.Atoi(bl.Value)
+				}
+			}
+			ast.Inspect(st, func(x ast.Node) bool {
+				if br, ok := x.(*ast.BranchStmt); ok && br.Tok == token.GOTO && br.Label.Name == "_out" {
+					ti.emits = true
+				}
+				return true
+			})
 			ast.Inspect(st, func(x ast.Node) bool {
 				switch t := x.(type) {
 				case *ast.CallExpr:
@@ -459,10 +551,16 @@ func genScanDFA(c *ctx) {
 	// emit: per state and condition vector, the row as byte intervals (hi, target)
 	var b strings.Builder
 	b.WriteString("-- GENERATED by gofacts from internal/scanner/scanner.go (transition function of the ragel -G2 scanner). Do not edit.\nimport PhpVerif.Model.ScanDFA\nnamespace PhpVerif.Gen\nopen PhpVerif\n\n")
-	var names []string
+	var names, namesV0, namesV1 []string
 	nrows := 0
 	for _, r := range rows {
 		for v, tg := range r.targets {
+			if v == 0 {
+				namesV0 = append(namesV0, fmt.Sprintf("dfaRow_%d_%d", r.state, v))
+			}
+			if v == len(r.targets)-1 {
+				namesV1 = append(namesV1, fmt.Sprintf("dfaRow_%d_%d", r.state, v))
+			}
 			var iv []string
 			for bb := 0; bb < 256; bb++ {
 				if bb == 255 || tg[bb+1] != tg[bb] {
@@ -494,6 +592,90 @@ func genScanDFA(c *ctx) {
 		groups = append(groups, gn)
 	}
 	fmt.Fprintf(&b, "def dfaRows : List DFARow := [%s].flatten\n", strings.Join(groups, ", "))
+	for vi, ns := range [][]string{namesV0, namesV1} {
+		var gs []string
+		for i := 0; i < len(ns); i += 48 {
+			j := i + 48
+			if j > len(ns) {
+				j = len(ns)
+			}
+			gn := fmt.Sprintf("dfaRowsV%d_g%d", vi, i/48)
+			fmt.Fprintf(&b, "def %s : List DFARow := [%s]\n", gn, strings.Join(ns[i:j], ", "))
+			gs = append(gs, gn)
+		}
+		fmt.Fprintf(&b, "/-- one row per state: every `when` condition of the state %s -/\ndef dfaRowsV%d : List DFARow := [%s].flatten\n", []string{"false", "true"}[vi], vi, strings.Join(gs, ", "))
+	}
+	var trNames []string
+	for _, ti := range trs {
+		uniq := func(xs []string) string {
+			seen := map[int]bool{}
+			var out []string
+			for _, x := range xs {
+				k := tokCode(x)
+				if k < 0 {
+					c.fail(comp, f.Pos(), "action block tr%d assigns tok = %s, which is not a token constant", ti.n, x)
+					continue
+				}
+				if !seen[k] {
+					seen[k] = true
+					out = append(out, strconv.Itoa(k))
+				}
+			}
+			return "[" + strings.Join(out, ", ") + "]"
+		}
+		toks := ti.toks
+		var sw []string
+		if ti.sw != nil {
+			toks = nil
+			for _, k := range ti.swOrder {
+				sw = append(sw, fmt.Sprintf("(%d, %s)", k, uniq(ti.sw[k])))
+			}
+		}
+		next := 0
+		if code, ok := labelCode(ti.next); ok {
+			next = code
+		}
+		act := "none"
+		if ti.act >= 0 {
+			act = fmt.Sprintf("some %d", ti.act)
+		}
+		nm := fmt.Sprintf("trInfo_%d", ti.n)
+		fmt.Fprintf(&b, "def %s : TrInfo := { id := %d, act := %s, emits := %v, toks := %s, sw := [%s], next := %d }\n", nm, 10000+ti.n, act, ti.emits, uniq(toks), strings.Join(sw, ", "), next)
+		trNames = append(trNames, nm)
+	}
+	var trGroups []string
+	for i := 0; i < len(trNames); i += 48 {
+		j := i + 48
+		if j > len(trNames) {
+			j = len(trNames)
+		}
+		gn := fmt.Sprintf("trInfos_g%d", i/48)
+		fmt.Fprintf(&b, "def %s : List TrInfo := [%s]\n", gn, strings.Join(trNames[i:j], ", "))
+		trGroups = append(trGroups, gn)
+	}
+	fmt.Fprintf(&b, "def trInfos : List TrInfo := [%s].flatten\n", strings.Join(trGroups, ", "))
+	// token names, as numbers (base-256 digits of the name) so that the kernel compares no strings
+	var tn []string
+	for i, n := range tokOrder {
+		code := "0"
+		for _, ch := range []byte(n) {
+			code = fmt.Sprintf("(%s * 256 + %d)", code, ch)
+		}
+		_ = code
+		tn = append(tn, fmt.Sprintf("(nm! %q, %d)", n, tokNum["token."+n]))
+		_ = i
+	}
+	var tnGroups []string
+	for i := 0; i < len(tn); i += 32 {
+		j := i + 32
+		if j > len(tn) {
+			j = len(tn)
+		}
+		gn := fmt.Sprintf("tokenIds_g%d", i/32)
+		fmt.Fprintf(&b, "def %s : List (Nat × Nat) := [%s]\n", gn, strings.Join(tn[i:j], ", "))
+		tnGroups = append(tnGroups, gn)
+	}
+	fmt.Fprintf(&b, "/-- (name as a number, token number) from pkg/token/token.go -/\ndef tokenIds : List (Nat × Nat) := [%s].flatten\n", strings.Join(tnGroups, ", "))
 	var nl, holds []string
 	for _, t := range trs {
 		if t.newline {
